@@ -9,6 +9,7 @@ import OcVerif.Driver.RtWait
 import OcVerif.Driver.Co
 import OcVerif.Driver.Local
 import OcVerif.Driver.Beans
+import OcVerif.Driver.Sel
 /-!
 `ocmodel`: reads history lines `<comp> <id> : <body> => <implementation outputs>` on stdin,
 runs the Lean model on `<body>`, compares with the implementation's outputs and evaluates the
@@ -31,6 +32,7 @@ def dispatch (comp : String) : Option (String → String → Verdict) :=
   | "co" => some Driver.Co.drive
   | "local" => some Driver.Local.drive
   | "beans" => some Driver.Beans.drive
+  | "sel" => some Driver.Sel.drive
   | _ => none
 
 def handle (line : String) : String :=
